@@ -80,6 +80,18 @@ ENGINES = [
         "kind_free_text": "TLC enumerates codes (concrete and with symbolic bytes), checks the decoding invariants and prints the expected decoding; the records are replayed into halmos' Contract class and jump programs into SEVM.run",
     },
     {
+        "name": "unsat-cache-model",
+        "path": "spec/UnsatCache.tla spec/Trace_UnsatCache.tla spec/MC_UnsatCache*.cfg spec/MC_Trace_UnsatCache*.cfg harness/unsatcache_replay.py checks/c16.py",
+        "serves_properties": ["C16"],
+        "kind_free_text": "TLC model-checks the unsat-core cache (condition ids, their recycling, the references that pin them) and validates logs recorded from real run_contract executions against the model; cache-on and cache-off runs are compared",
+    },
+    {
+        "name": "verdict-model",
+        "path": "spec/Verdict.tla spec/Trace_Verdict.tla spec/MC_Verdict_*.cfg spec/MC_Trace_Verdict.cfg harness/verdict_replay.py harness/stub_solver.py checks/c05.py",
+        "serves_properties": ["C05"],
+        "kind_free_text": "TLC explores run_test's aggregation with one action per code site (main thread and solver pool threads) for every assignment of path outcomes and solver replies; behaviours are replayed through the real run_contract/_main with a scripted stub solver and gated schedules, and recorded runs are validated against the model",
+    },
+    {
         "name": "word-tables",
         "path": "spec/EvmWord.tla spec/EvmWordNat.tla spec/WordRefine.tla spec/WordTable.tla harness/wordops.py harness/progs_ops.py checks/c06.py",
         "serves_properties": ["C06"],
@@ -185,6 +197,13 @@ CHECKS: dict[str, dict] = {
         "text": "Frontier.tla specifies bounded invariant testing (any sequence of <= d calls target x function x arguments x sender x value x non-decreasing timestamp from the post-setUp world, targets and senders resolved from the declared filters by Foundry's rules, reverted calls dropped, the invariant and target assertions checked after each call; states merged only when their worlds are equal, by a VIEW). For generated two-word state machines whose functions make the finite domains complete (arguments masked to 0..3, senders compared with one owner, values with 1) TLC decides breakability within depth d and prints a shortest breaking sequence. halmos' run_contract with --invariant-depth d must FAIL iff an invariant break exists; every valid counterexample (call sequence and model captured at the solver callback) is concretised and replayed on Evm.tla and must break the invariant.",
         "note": "Timestamps: the generated targets compare block.timestamp only with the timestamp of an earlier call, so TLC's domain of depth+1 non-decreasing timestamps is complete. A third of the machines declare target/exclude filters (contracts, selectors, senders) through forge-std's getters; Frontier!TargetAddrs/TargetFns/Senders resolve them and the calls / admitted senders halmos sets up are compared with the resolved sets. Recorded findings: an assertion failing inside a target is printed but not part of the verdict; the first call of every sequence runs at setUp's timestamp.",
         "design_ref": "5 C15, A.4",
+    },
+    "C16": {
+        "engine": "unsat-cache-model",
+        "technique": "UnsatCache.tla (condition ids, recycling of ids after garbage collection, the two references that pin them, core storage and subset lookup) model-checked by TLC; logs recorded from real run_contract executions validated against Trace_UnsatCache.tla; cache-on vs cache-off differential",
+        "text": "UnsatCache.tla models what --cache-solver relies on: z3 ast ids name constraints only while the objects live; a stored core is a set of ids; a later query hits when a core is a subset of its ids. TLC checks CacheSound (a hit only on a query that contains a jointly unsatisfiable set of constraints), CoresDenoteUnsat and PinnedStable with both references that keep the ids alive (the futures' callbacks; the shared term_to_vars dict), with either alone, and REFUTES CacheSound when neither is present (id recycled for another constraint). Generated test contracts are run through the real run_contract with and without --cache-solver (and again in a fresh process): every id list, stored core, hit/miss and test boundary is recorded (texts only, gc forced between paths) and the logs are validated by Trace_UnsatCache.tla in one TLC run against the query's own cache-off solver verdict; exit codes, path counts, per-path results and counterexample validity must coincide between cache on and off; parse_unsat_core is driven with 31 solver output shapes. Nine negative controls (corrupted logs, a lookup ignoring an id, a core stored as strict subset, both pins released ...) must be rejected.",
+        "note": "Invariant-test probes are not generated. The recorder serialises check_unsat_cores / append_unsat_core, so a data race between them would not be seen. Model-fidelity clauses (the model no longer describes the code) are machinery errors, not violations.",
+        "design_ref": "5 C16, 3.4",
     },
     "C17": {
         "engine": "E3-schedule-engine",
